@@ -182,9 +182,10 @@ func getChildQueuesPreemptableResource(queue *Queue, parentPreemptableResource *
 		}
 		preemptableResource := resources.NewResource()
 		for k, v := range usedResource.Resources {
-			if v < 0 {
+			switch {
+			case v < 0:
 				preemptableResource.Resources[k] = v * -1
-			} else {
+			case guaranteed.IsEmpty():
 				preemptableResource.Resources[k] = v
 			}
 		}
